@@ -230,6 +230,18 @@ def impl(case):
         return p
 
     cls = JointDegreeSplitDegree if case["mode"] == 0 else JointDegreeDelta
+    # a decoy instance with other parameters first: state leaking between instances (class-level or
+    # module-level caches) then shows up inside this one case, so that every replay is self-contained
+    try:
+        dp = params()
+        dp[N.FP] = lambda k: 0.25 + 0.125 * (k % 3)
+        dp[N.PROBS] = [0.375] + [0.625] * max(0, len(case["probs"]) - 1)
+        dp[N.LOW_HIGH_DEGREE_BOUND] = (max(0, lo - 1), hi + 1)
+        if case["mode"] == 1:
+            dp[N.TARGET_K] = case["target"] + 1
+        cls(dp)
+    except Exception:  # noqa: BLE001 - the decoy's own outcome is irrelevant
+        pass
     obj = cls(params())
     t1 = _table(obj.jdd)
     obj.create_jdd()
@@ -330,11 +342,10 @@ def nontrivial_key(case, impl_obs):
 def shrink(case):
     lo, hi = case["lo"], case["hi"]
     n = len(case["fps"])
+    case = dict(case, tag="shrunk")
     if n > 1:
-        c = dict(case, hi=hi - 1, fps=case["fps"][:-1])
-        yield c
-        c = dict(case, lo=lo + 1, fps=case["fps"][1:])
-        yield c
+        yield dict(case, hi=hi - 1, fps=case["fps"][:-1])
+        yield dict(case, lo=lo + 1, fps=case["fps"][1:])
     if len(case["probs"]) > 1:
         yield dict(case, probs=case["probs"][:-1], motif_sizes=case["motif_sizes"][:len(case["probs"]) - 1]
                    if len(case["motif_sizes"]) == len(case["probs"]) else case["motif_sizes"])
